@@ -614,11 +614,12 @@ fn iter_array(
     reversed: bool,
 ) -> Vec<ValueCow<'_>> {
     let offset = ::std::cmp::min(offset, range.len());
+    let remaining = range.len() - offset;
     let limit = limit
-        .map(|l| ::std::cmp::min(l, range.len()))
-        .unwrap_or_else(|| range.len() - offset);
+        .map(|l| ::std::cmp::min(l, remaining))
+        .unwrap_or(remaining);
     range.drain(0..offset);
-    range.resize(limit, Value::Nil.into());
+    range.truncate(limit);
 
     if reversed {
         range.reverse();
